@@ -93,6 +93,13 @@ Example C17_example_mixed_bindings :
 Proof. exact ex_mixed_bindings. Qed.
 Print Assumptions C17_example_mixed_bindings.
 
+(* a request given as a dict is coerced to the canonical request type of the method — every mixin method and every legacy
+   add-iam-methods method, on both clients, for every configuration *)
+Theorem C17_dict_requests_coerced_to_canonical_type : forall cfg k n o,
+  In (n, o) (client_coercions k cfg) -> exists r, In r CANON /\ n = snake (cr_method r) /\ o = Some (cr_in r).
+Proof. exact dict_requests_coerced_to_canonical_type. Qed.
+Print Assumptions C17_dict_requests_coerced_to_canonical_type.
+
 (* the routing header of every client mixin method names the resource-name field of the canonical request *)
 Theorem C17_canonical_routing_fields : forall t,
   In t CLIENT_TMPL -> exists r, In r CANON /\ cr_method r = t_name t /\ cr_route r = t_route t.
